@@ -140,10 +140,13 @@ pub fn guard_msg(id: &str) -> &'static str {
     leak(&format!("GUARDMSG-{}", id))
 }
 
+/// the validation every guarded node applies: no (member) value is the refused one
 fn guard_ok(v: &Val) -> bool {
     match v {
         Val::Int(i) => *i != 2,
         Val::Bytes(b) => b.as_slice() != GUARD_BAD.as_bytes(),
+        Val::Tuple(vs) | Val::List(vs) => vs.iter().all(guard_ok),
+        Val::Variant(_, x) | Val::Just(x) => guard_ok(x),
         _ => true,
     }
 }
@@ -193,7 +196,8 @@ fn group_default(f: &J) -> Val {
 /// apply guard / arity / catch / hide wrappers shared by all node kinds
 fn wrap(mut p: P, it: &J) -> P {
     let id = s(it, "id");
-    if b(it, "guard") {
+    // (`guard_at_group`: the validation of this member is attached to the group it belongs to, after the group is built)
+    if b(it, "guard") && !b(it, "guard_at_group") {
         p = p.guard(guard_ok, guard_msg(id)).boxed();
     }
     let catch = b(it, "catch");
